@@ -13,6 +13,7 @@ int driver_main(int argc, char **argv);
 }
 
 extern "C" __attribute__((used)) const char *__asan_default_options() { return "exitcode=77:detect_leaks=0:abort_on_error=0:allocator_may_return_null=1:detect_stack_use_after_return=0:handle_abort=1:external_symbolizer_path=/usr/bin/llvm-symbolizer-14"; }
+extern "C" __attribute__((used)) const char *__tsan_default_options() { return "halt_on_error=1:exitcode=66:report_signal_unsafe=0:second_deadlock_stack=1"; }
 extern "C" __attribute__((used)) const char *__ubsan_default_options() { return "halt_on_error=1:exitcode=78:print_stacktrace=0"; }
 
 using namespace sim;
